@@ -25,6 +25,9 @@ static int readOnce(const std::string& file)          // 0 = exception, 1 = retu
 int main(int argc, char** argv)
 {
     if (argc > 2 && std::string(argv[1]) == "--child") { (void) readOnce(argv[2]); return 0; }
+    if (argc > 2 && std::string(argv[1]) == "--child-data") {          // 0 = exception (good), 1 = data returned
+        try { Opm::EclIO::EclFile f(argv[2]); const auto& v = f.get<int>("DATA"); (void) v; return 1; } catch (const std::exception&) { return 0; }
+    }
     Replay r(argc, argv);
     const auto dir = fs::temp_directory_path() / ("verif_c07r_" + std::to_string(::getpid()));
     fs::create_directories(dir);
@@ -45,9 +48,25 @@ int main(int argc, char** argv)
         int st = 0; waitpid(pid, &st, 0);
         if (WIFEXITED(st) && WEXITSTATUS(st) == 9) { ++vgerr; where += " " + std::to_string(len); }
     }
+    // (c) a block length word that claims more elements than the array header leaves (but at most 1000): must be rejected
+    //     with an exception and without touching memory outside the result vector
+    int lied = 0;
+    {
+        const std::string small = (dir / "small.bin").string(), bad = (dir / "bad.bin").string();
+        { std::vector<int> d(10, 7); Opm::EclIO::EclOutput out(small, false); out.write("DATA", d); }
+        std::ifstream is(small, std::ios::binary); std::vector<char> b((std::istreambuf_iterator<char>(is)), {});
+        b[24] = 0; b[25] = 0; b[26] = 0; b[27] = char(248);          // head word: 62 ints instead of 10
+        { std::ofstream os(bad, std::ios::binary); os.write(b.data(), b.size()); }
+        const pid_t pid = fork();
+        if (pid == 0) { execlp("valgrind", "valgrind", "-q", "--error-exitcode=9", argv[0], "--child-data", bad.c_str(), (char*)nullptr); _exit(3); }
+        int st = 0; waitpid(pid, &st, 0);
+        if (WIFSIGNALED(st) || (WIFEXITED(st) && WEXITSTATUS(st) != 0)) lied = WIFSIGNALED(st) ? 2 : (WEXITSTATUS(st) == 9 ? 3 : 1);
+    }
     fs::remove_all(dir);
     w << "unformatted INTE array of " << N << " elements cut short at every byte: " << wrong << " truncations returned data instead of raising an error";
     if (wrong) w << " (first at length " << firstWrong << ")";
     w << "; valgrind memcheck " << (vgerr ? "reports use of uninitialised values (the length word left behind by the short read) for files cut at byte(s)" + where : std::string("is clean on the sampled cut points"));
-    return r.verdict(wrong == 0 && vgerr == 0, w.str());
+    w << "; a block length word larger than the rest of the array is " << (lied == 0 ? "rejected with an exception"
+         : lied == 1 ? "ACCEPTED (data returned)" : lied == 2 ? "fatal (signal)" : "rejected only after valgrind reports invalid memory accesses (write past the result vector)");
+    return r.verdict(wrong == 0 && vgerr == 0 && lied == 0, w.str());
 }
